@@ -6,14 +6,14 @@ set_option linter.unusedSectionVars false
 namespace Ucan.Tie
 open Ucan Ucan.GoM
 
-variable {D C : Type} [DecidableEq D]
+variable {D C S : Type} [DecidableEq D]
 
 /-! ### token/delegation, token/invocation: the authorization decision -/
 
 
 /-- a Go delegation as the chain model sees it; `undef` is `did.Undef`, the absent subject of a powerline
 delegation. The policy is not part of the regenerated functions (`verifyArgs` is tied by the `chain` stream). -/
-def toDlg (undef : D) (pol : Gen.DlgTok D → List Policy.Stmt) (g : Gen.DlgTok D) : Chain.Dlg D :=
+def toDlg (undef : D) (pol : Gen.DlgTok D S → List Policy.Stmt) (g : Gen.DlgTok D S) : Chain.Dlg D :=
   { iss := g.issuer, aud := g.audience, sub := if g.subject = undef then none else some g.subject,
     cmd := g.command, pol := pol g, nbf := g.notBefore, exp := g.expiration }
 
